@@ -60,8 +60,13 @@ def isInNursery (s : LOS) (o : Obj) : Bool := s.bits o &&& NURSERY_BIT == NURSER
 /-- `LargeObjectSpace::test_mark_bit(object, value)`. -/
 def testMarkBit (s : LOS) (o : Obj) (value : Nat) : Bool := s.bits o &&& MARK_BIT == value
 
-/-- `LargeObjectSpace::is_marked` / `SFT::is_live`. -/
+/-- `LargeObjectSpace::is_marked` (and, on the pinned tree, `SFT::is_live`). -/
 def isMarked (s : LOS) (o : Obj) : Bool := testMarkBit s o s.markState
+
+/-- `SFT::is_live` on this tree (after the `fix:` commit): the mark state does not flip in a nursery
+GC, so an untraced young object still carries the mark it was allocated with; it is live only once
+tracing has cleared its nursery bit. -/
+def isLive (s : LOS) (o : Obj) : Bool := isMarked s o && !(s.inNurseryGc && isInNursery s o)
 
 /-- `LargeObjectSpace::test_and_mark(object, value)`: `mask = LOS_BIT_MASK` in a nursery GC, else
 `MARK_BIT`; if `old & mask == value` return false; else store `old & !LOS_BIT_MASK | value`
@@ -97,14 +102,15 @@ def sweepLargePages (s : LOS) (sweepNursery : Bool) : List Obj × LOS :=
 
 /-- `LargeObjectSpace::release(full_heap)`: the swept objects (nursery sweep first).
 `none` = `debug_assert!(self.treadmill.is_alloc_nursery_empty())` fired (debug builds); the two
-later assertions (`collect_nursery` / `from_space` empty after `mem::take`) cannot fire. -/
+later assertions (`collect_nursery` / `from_space` empty after `mem::take`) cannot fire.
+The last statement resets `in_nursery_gc` (added by the `fix:` commit that makes `is_live` exact in nursery GCs). -/
 def release (debug : Bool) (s : LOS) (fullHeap : Bool) : Option (List Obj × LOS) :=
   if debug && !s.tm.allocNursery.isEmpty then none else
   let (r1, s1) := sweepLargePages s true
   if fullHeap then
     let (r2, s2) := sweepLargePages s1 false
-    some (r1 ++ r2, s2)
-  else some (r1, s1)
+    some (r1 ++ r2, { s2 with inNurseryGc := false })
+  else some (r1, { s1 with inNurseryGc := false })
 
 /-! ## The protocol by which a plan drives its large object space
 
